@@ -132,7 +132,7 @@ def constructor_cases(ctx):
     for _ in range(20 if not ctx.thorough else 200):
         hists.append([(i, rng.choice(SUBSETS)) for i in range(rng.randint(0, 4))])
     feature_args = [None, [], "html", "fast", "Xml", "nosuch", ["html", "fast"], ["Xml", "nosuch"],
-                    ["nosuch"], ["fast", "Xml"], ("html",)]
+                    ["nosuch"], ["fast", "Xml"], ("html",), ("Xml", "nosuch"), ("nosuch", "nosuch"), ("fast", "html", "Xml")]
     kwargs_list = [{}, {"multi_valued_attributes": None}]
     saved = bs4.builder_registry
     default = list(bs4.BeautifulSoup.DEFAULT_BUILDER_FEATURES)
@@ -286,6 +286,72 @@ def subclass_default(ctx):
         bs4.builder_registry = saved
 
 
+def registration_time(ctx):
+    """What a builder advertises is read when it is registered: a later change of the class's (caller-owned) features list
+    changes no answer.  And register_treebuilders_from(module) registers every TreeBuilder the module exports - also one
+    whose name bs4.builder already exports."""
+    import copy, sys, types
+    import bs4.builder as B
+    rng = ctx.rng
+    reqs = [[], ["html"], ["fast"], ["Xml"], ["html", "fast"], ["fast", "html"], ["Xml", "html"], ["html", "html"], ["fast", UNKNOWN, "html"]]
+    hists = [h for h in histories(ctx, 3) if len(h) >= 2 and rng.random() < (0.4 if ctx.thorough else 0.08)]
+    n = 0
+    for hi, h in enumerate(hists):
+        reg = TreeBuilderRegistry()
+        classes = []
+        for b, fs in h:
+            c = type("HBm%d" % b, (HB,), {"features": list(fs), "bid": b})
+            classes.append(c)
+            reg.register(c)
+        for c in classes:                      # the caller goes on using its list
+            if hi % 3 == 0:
+                c.features.append(rng.choice(UNIV))
+            elif hi % 3 == 1:
+                del c.features[:]
+            else:
+                c.features[:] = [f for f in UNIV if f not in c.features]
+        for r in reqs:
+            got = reg.lookup(*r)
+            got = None if got is None else got.bid
+            exp = spec_lookup(h, r)
+            ctx.case(("registration-time", hi, tuple(r)))
+            n += 1
+            if got != exp:
+                ctx.fail({"history": h, "request": r, "then": "each registered class's features list was changed after registration"},
+                         "lookup does not answer from what was advertised at registration", got, exp, tag="registration-time")
+    ctx.count("registration_time_lookups", n)
+    # register_treebuilders_from on a scratch registry; module state restored afterwards
+    saved_reg, saved_all = B.builder_registry, list(B.__all__)
+    saved_attrs = {}
+    try:
+        B.builder_registry = TreeBuilderRegistry()
+        fresh = type("VerifFreshBuilder", (HB,), {"features": ["verif-fresh"], "bid": 101})
+        clash_name = "HTMLParserTreeBuilder" if "HTMLParserTreeBuilder" in B.__all__ else B.__all__[0]
+        clash = type(clash_name, (HB,), {"features": ["verif-clash"], "bid": 102})
+        mod = types.ModuleType("verif_builders")
+        mod.__all__ = ["VerifFreshBuilder", clash_name]
+        mod.VerifFreshBuilder, _ = fresh, setattr(mod, clash_name, clash)
+        for name in mod.__all__:
+            saved_attrs[name] = getattr(B, name, None)
+        B.register_treebuilders_from(mod)
+        B.register_treebuilders_from(mod)          # a second time: registered again, newest first
+        for feat, cls in (("verif-fresh", fresh), ("verif-clash", clash)):
+            got = B.builder_registry.lookup(feat)
+            ctx.case(("register-from", feat))
+            if got is not cls:
+                ctx.fail({"module exports": mod.__all__, "feature": feat}, "a builder exported by the module was not registered by register_treebuilders_from",
+                         getattr(got, "__name__", None), cls.__name__, tag="register-from")
+    finally:
+        B.builder_registry = saved_reg
+        B.__all__[:] = saved_all
+        for name, v in saved_attrs.items():
+            if v is None:
+                if hasattr(B, name):
+                    delattr(B, name)
+            else:
+                setattr(B, name, v)
+
+
 def run(ctx):
     maxn = 4 if ctx.thorough else 3
     batch = []
@@ -302,6 +368,7 @@ def run(ctx):
     constructor_cases(ctx)
     interleaved(ctx)
     subclass_default(ctx)
+    registration_time(ctx)
     shipped_default(ctx)
 
 
